@@ -24,13 +24,13 @@ LEVEL = "fault_enumeration"
 ALPHABET = ["normal", "zero", "tiny", "huge", "overflow", "nan", "inf"]
 MODERATE = {"normal", "zero", "tiny", "huge"}
 RULE = ("fault enumeration: for each configuration in {failure threshold 0,1e-30,0.1,1e30} x {matrix epsilon 0,1e-6} x {Newton,eigh} "
-        "x {preconditioner interval 1,2} x {jit, pmap int16-quantised, sharded 2-device mesh} x {x64 on, off} (thorough: x graft {SGD, RMSProp, normalised AdaGrad}), ALL words of length T "
+        "x {preconditioner interval 1,2} x {jit, pmap int16-quantised, sharded 2-device mesh} x {x64 on, off}, plus 48 configurations with all-1x1 statistics or a 64x64 statistic (thorough: x graft {SGD, RMSProp, normalised AdaGrad}), ALL words of length T "
         "(T=3 quick: 343 words, 399 steps; thorough T=5 restricted to <=3 non-normal letters) over the alphabet "
         "{normal, zero, tiny 1e-12, huge 1e12, overflow 1e30, NaN entry, +-Inf entry} are replayed through one compiled step; "
         "evaluations = words; a word is non-trivial when it contains a rejected root attempt or a poisoned (NaN/Inf/overflow) step; "
         "distinct by (configuration, word)")
 ASSUMPTIONS = ["reported errors are read from training_metrics of the post-state (generate_training_metrics=True)",
-               "two leaves (4,3) and (5,), block 8: three statistics of sizes 4,3,5 padded to a common size"]
+               "main grid: two leaves (4,3) and (5,), block 8: three statistics of sizes 4,3,5 padded to a common size; extra configurations: all-1x1 statistics {(1,),(1,1)} and one 64x64 statistic {(64,),(3,)}"]
 DECIDING = ["steps", "accepts", "rejects_by_threshold", "rejects_by_nan", "non_refresh_steps", "poisoned_steps", "moderate_update_checked"]
 MIN_NONTRIVIAL = 100
 TIMEOUT = {"quick": 1500, "thorough": 7200}
@@ -50,7 +50,17 @@ def all_configs(tier="quick"):
     if graft != 1:
       c["graft"] = graft
     out.append(c)
+  # other statistic sizes: all-1x1 statistics (scalar root branch) and one 64x64 statistic (large reductions)
+  for x64, mode, eigh, interval, tree in itertools.product([True, False], ["jit", "pmapq", "sharded"], [False, True], [1, 2], ["ones", "big"]):
+    out.append({"x64": x64, "mode": mode, "thr": 0.1, "eps": 1e-6, "eigh": eigh, "interval": interval, "tree": tree})
   return out
+
+
+TREES = {"default": {"a": [4, 3], "b": [5]}, "ones": {"a": [1], "b": [1, 1]}, "big": {"a": [64], "b": [3]}}
+
+
+def tree_of(c):
+  return TREES[c.get("tree", "default")]
 
 
 def shards(tier, seed):
@@ -66,9 +76,10 @@ def shards(tier, seed):
   return out
 
 
-def grads_for(depth, letter, seed):
+def grads_for(depth, letter, seed, tree=None):
+  tree = tree or TREE
   rng = np.random.default_rng([seed, depth, ALPHABET.index(letter)])
-  g = {k: rng.standard_normal(tuple(s)) for k, s in TREE.items()}
+  g = {k: rng.standard_normal(tuple(s)) for k, s in tree.items()}
   if letter == "zero":
     g = {k: v * 0 for k, v in g.items()}
   elif letter == "tiny":
@@ -78,20 +89,21 @@ def grads_for(depth, letter, seed):
   elif letter == "overflow":
     g = {k: v * 1e30 for k, v in g.items()}
   elif letter == "nan":
-    g["a"][1, 1] = np.nan
-    g["b"][2] = np.nan
+    g["a"].flat[min(4, g["a"].size - 1)] = np.nan
+    g["b"].flat[min(2, g["b"].size - 1)] = np.nan
   elif letter == "inf":
-    g["a"][0, 2] = np.inf
-    g["b"][4] = -np.inf
+    g["a"].flat[min(2, g["a"].size - 1)] = np.inf
+    g["b"].flat[min(4, g["b"].size - 1)] = -np.inf
   return {k: np.asarray(v, np.float32) for k, v in g.items()}
 
 
 def make_runner(c):
-  cfg = dict(block_size=8, graft_type=c.get("graft", 1), start_preconditioning_step=1, merge_small_dims_block_size=1,
+  cfg = dict(block_size=64 if c.get("tree") == "big" else 8, graft_type=c.get("graft", 1), start_preconditioning_step=1, merge_small_dims_block_size=1,
+             best_effort_shape_interpretation=False,
              inverse_failure_threshold=c["thr"], matrix_epsilon=c["eps"], eigh=c["eigh"],
              preconditioning_compute_steps=c["interval"], learning_rate=0.1,
              beta2=c.get("beta2", 0.999))
-  params = {k: np.ones(tuple(s), np.float32) for k, s in TREE.items()}
+  params = {k: np.ones(tuple(s), np.float32) for k, s in tree_of(c).items()}
   return H.Runner(cfg, params, c["mode"], 2 if c["mode"] == "sharded" else 1)
 
 
@@ -106,7 +118,8 @@ def check_step(c, word, t, pre, post, un, rec):
   if letter not in MODERATE:
     rec.count("poisoned_steps")
   rejected_here = False
-  for k in sorted(TREE):
+  tree = tree_of(c)
+  for k in sorted(tree):
     a, b = pre["params"][k], post["params"][k]
     m = b["metrics"]
     for i in range(len(b["precs_bits"])):
@@ -132,7 +145,7 @@ def check_step(c, word, t, pre, post, un, rec):
           return ("unverified-root-installed:" + c["mode"], "preconditioner %s[%d] replaced at step %d although reported error %r is not finite and < threshold %g (word %s)" % (k, i, t, err, thr, "-".join(word)))
   if all(l in MODERATE for l in word):
     rec.count("moderate_update_checked")
-    for k in sorted(TREE):
+    for k in sorted(tree):
       if not np.all(np.isfinite(un[k])):
         return ("non-finite-update-moderate-history:" + c["mode"], "update for %s is non-finite after the moderate history %s" % (k, "-".join(word)))
   return "rejected" if rejected_here else None
@@ -163,7 +176,7 @@ def run_config(c, T, max_faults, seed, rec, only_word=None):
         rec.count("dropped_for_budget")
         stop["v"] = True
         return
-      g = grads_for(depth, letter, seed)
+      g = grads_for(depth, letter, seed, tree_of(c))
       try:
         u, st = runner.step(g, state)
       except Exception as e:  # pylint: disable=broad-except
